@@ -1,4 +1,5 @@
 import UmProofs.RouteE2EReach
+import UmProofs.RouteE2EHistory
 /-!
 # C02 — Synced proxies route every key to the broker-designated master
 
@@ -239,6 +240,40 @@ theorem C02_no_third_node (cfg : RouteCfg) (v : VCluster) (net : Addr → Option
 
 
 
+
+/-! ## long-lived proxies: only the last accepted metadata matters -/
+
+/-- **the installed state is a function of the last accepted metadata.**  Whatever a proxy served
+before (`p0`: any state reached through any sequence of SETCLUSTERs, handshake steps, phases), after
+an accepted `set_meta m` its cluster map, migration-map cluster name and `empty` flag are what a
+fresh process builds from `m` alone (`installFresh`), its task keys are the fresh ones up to the
+visiting order, and every task is either an old task with an unchanged key (phase carried over) or
+in `PreCheck` with a key no old task had.  (In the code: `update_from_old_task_map`; an `empty` flag
+computed from the newly created tasks only violates the `migEmpty` clause exactly when a SETCLUSTER
+is re-applied during a migration, all tasks being reused.) -/
+theorem C02_install_last_only (p0 : ProxyState) (m : EMeta) (p : ProxyState) (h : setMeta p0 m = (p, .ok)) :
+    p.cfg = p0.cfg ∧ p.epoch = m.epoch ∧ p.cm = (installFresh p0.cfg m).cm ∧
+    p.migCluster = (installFresh p0.cfg m).migCluster ∧ p.migEmpty = (installFresh p0.cfg m).migEmpty ∧
+    (p.tasks.map (·.key)).Perm ((installFresh p0.cfg m).tasks.map (·.key)) ∧
+    ∀ t ∈ p.tasks, t ∈ p0.tasks ∨ (t.state = .preCheck ∧ ∀ o ∈ p0.tasks, o.key ≠ t.key) :=
+  setMeta_last_only p0 m p h
+
+/-- … through any sequence of installs (accepted or refused) before the last accepted one -/
+theorem C02_install_seq_last_only (p0 : ProxyState) (ms : List EMeta) (m : EMeta) (p : ProxyState)
+    (h : setMeta (ms.foldl (fun q x => (setMeta q x).1) p0) m = (p, .ok)) :
+    p.cm = (installFresh p0.cfg m).cm ∧ p.migCluster = m.cluster ∧
+    p.migEmpty = (installFresh p0.cfg m).migEmpty ∧
+    (p.tasks.map (·.key)).Perm ((installFresh p0.cfg m).tasks.map (·.key)) :=
+  setMeta_seq_last_only p0 ms m p h
+
+/-- **routing after an install sequence = routing after installing the last accepted metadata on a
+fresh proxy, given the tasks' phases** (`installWith`), for every slot at most one task contains -/
+theorem C02_route_last_only (p0 : ProxyState) (m : EMeta) (p : ProxyState) (h : setMeta p0 m = (p, .ok)) (s : Nat)
+    (huniq : ∀ t ∈ p.tasks, ∀ t' ∈ p.tasks, t.containsSlot s = true → t'.containsSlot s = true → t = t') :
+    routeWithMigration p none (some s) =
+      routeWithMigration (installWith p0.cfg m (fun k => (stateOf p k).getD .preCheck) p.blocking) none (some s) :=
+  route_last_only p0 m p h s huniq
+
 /-! ## over every bounded run of the broker -/
 
 /-- **C02, stable slot, every reachable broker state.**  For every operation list whose prefixes
@@ -249,12 +284,13 @@ proxy of the cluster is reachable and has installed — through `encodeFor`, a f
 `get_cluster_by_name` serves, every slot no pending range covers has exactly one covering master
 range, and from every proxy of the cluster the client is served by that master's node at that
 master's proxy after at most one MOVED.
-Hypotheses that are not broker invariants, kept explicit: the cluster name is not empty
-(`ClusterName::try_from("")` succeeds; `validName` only ties `v` to the query), and the two nodes of
-every proxy of the cluster have different addresses (`NodesDistinct`, finding F02a). -/
+The one hypothesis that is not a broker invariant, kept explicit: the cluster name is not empty
+(`ClusterName::try_from("")` succeeds; `validName` only ties `v` to the query).  That the two nodes
+of every proxy have different addresses is discharged: since /repo bf43b2d (fix of F02a) `add_proxy`
+refuses equal node addresses, `nodesDistinct_of_run`. -/
 theorem C02_stable_reachable (ops : List Op) (hb : ∀ k, Plan.PlanBound (run (ops.take k)))
     (name : String) (limit : Nat) (cl : Cluster) (hc : (run ops).findCluster name = some cl)
-    (hvalid : validName name = true) (hname : name ≠ "") (hnodes : NodesDistinct cl)
+    (hvalid : validName name = true) (hname : name ≠ "")
     (cfg : RouteCfg) (har : cfg.activeRedirection = false) (net : Addr → Option ProxyState)
     (hsync : SyncedWith cfg (run ops) cl limit net) :
     ∃ v, clusterView (run ops) name limit = .ok (some v) ∧ PartitionView v ∧
@@ -262,7 +298,7 @@ theorem C02_stable_reachable (ops : List Op) (hb : ∀ k, Plan.PlanBound (run (o
         ∃ n₀ sr₀, Cov v s n₀ sr₀ ∧ sr₀.tag = Tag.none ∧ (∀ n sr, Cov v s n sr → n = n₀ ∧ sr = sr₀) ∧
           ∀ start ∈ cl.proxyAddrs,
             ∃ k, k ≤ 1 ∧ EndsAt (follow net s FOLLOW_FUEL start) k n₀.proxy n₀.address := by
-  obtain ⟨v, hs⟩ := served_of_run ops hb name limit cl hc hvalid hname hnodes
+  obtain ⟨v, hs⟩ := served_of_run ops hb name limit cl hc hvalid hname
   refine ⟨v, hs.cluster, hs.ok.part, ?_⟩
   intro s hlt hp
   obtain ⟨n₀, sr₀, h1, h2, h3, h4⟩ := C02_stable cfg v net hs.ok har (synced_of_syncedWith hs hsync) s hlt hp
@@ -274,7 +310,7 @@ migration between the two halves of one chunk whose masters sit on one proxy is 
 the store invariants).  Conclusions as in `C02_migrating`, for every start proxy of the cluster. -/
 theorem C02_migrating_reachable (ops : List Op) (hb : ∀ k, Plan.PlanBound (run (ops.take k)))
     (name : String) (limit : Nat) (cl : Cluster) (hc : (run ops).findCluster name = some cl)
-    (hvalid : validName name = true) (hname : name ≠ "") (hnodes : NodesDistinct cl)
+    (hvalid : validName name = true) (hname : name ≠ "")
     (cfg : RouteCfg) (har : cfg.activeRedirection = false) (net : Addr → Option ProxyState)
     (hsync : SyncedWith cfg (run ops) cl limit net) :
     ∃ v, clusterView (run ops) name limit = .ok (some v) ∧ PartitionView v ∧ v.name = name ∧
@@ -292,7 +328,7 @@ theorem C02_migrating_reachable (ops : List Op) (hb : ∀ k, Plan.PlanBound (run
                       (follow net s FOLLOW_FUEL start = (k, .exec info.dstProxy info.dstNode) ∨
                         (stS = .preSwitch ∧
                           follow net s FOLLOW_FUEL start = (k, .held info.srcProxy info.srcNode))))) := by
-  obtain ⟨v, hs⟩ := served_of_run ops hb name limit cl hc hvalid hname hnodes
+  obtain ⟨v, hs⟩ := served_of_run ops hb name limit cl hc hvalid hname
   refine ⟨v, hs.cluster, hs.ok.part, hs.vname, ?_⟩
   intro s hlt hp
   obtain ⟨nS, srM, info, nD, srI, hm, hrest⟩ :=
@@ -307,7 +343,7 @@ the cluster executes or queues a command only on a master the served view places
 that shows a range covering the slot -/
 theorem C02_no_third_node_reachable (ops : List Op) (hb : ∀ k, Plan.PlanBound (run (ops.take k)))
     (name : String) (limit : Nat) (cl : Cluster) (hc : (run ops).findCluster name = some cl)
-    (hvalid : validName name = true) (hname : name ≠ "") (hnodes : NodesDistinct cl)
+    (hvalid : validName name = true) (hname : name ≠ "")
     (cfg : RouteCfg) (har : cfg.activeRedirection = false) (net : Addr → Option ProxyState)
     (hsync : SyncedWith cfg (run ops) cl limit net) :
     ∃ v, clusterView (run ops) name limit = .ok (some v) ∧
@@ -316,7 +352,7 @@ theorem C02_no_third_node_reachable (ops : List Op) (hb : ∀ k, Plan.PlanBound 
         ∀ a ∈ cl.proxyAddrs, ∀ p, net a = some p → ∀ x,
           (routeWithMigration p none (some s) = .exec x ∨ routeWithMigration p none (some s) = .held x) →
           ∃ n sr, Cov v s n sr ∧ n.proxy = a ∧ n.address = x := by
-  obtain ⟨v, hs⟩ := served_of_run ops hb name limit cl hc hvalid hname hnodes
+  obtain ⟨v, hs⟩ := served_of_run ops hb name limit cl hc hvalid hname
   refine ⟨v, hs.cluster, ?_⟩
   intro s hlt hdist a ha p hn x hx
   exact C02_no_third_node cfg v net hs.ok har (synced_of_syncedWith hs hsync) s hlt hdist a
@@ -327,19 +363,39 @@ theorem C02_no_third_node_reachable (ops : List Op) (hb : ∀ k, Plan.PlanBound 
 every proxy synced from scratch satisfies every hypothesis -/
 example : ∃ v, clusterView (run runOps) "c" 0 = .ok (some v) ∧ PartitionView v := by
   obtain ⟨v, hs⟩ := served_of_run runOps runOps_bound "c" 0 runCluster runCluster_found (by decide) (by decide)
-    runCluster_nodes
   obtain ⟨v', h1, h2, _⟩ := C02_stable_reachable runOps runOps_bound "c" 0 runCluster runCluster_found (by decide)
-    (by decide) runCluster_nodes {} rfl (freshNet (run runOps) 0) (syncedWith_fresh hs)
+    (by decide) {} rfl (freshNet (run runOps) 0) (syncedWith_fresh hs)
   exact ⟨v', h1, h2⟩
 
 example : ∃ v, clusterView (run runOps) "c" 0 = .ok (some v) ∧ v.name = "c" := by
   obtain ⟨v, hs⟩ := served_of_run runOps runOps_bound "c" 0 runCluster runCluster_found (by decide) (by decide)
-    runCluster_nodes
   obtain ⟨v', h1, _, h3, _⟩ := C02_migrating_reachable runOps runOps_bound "c" 0 runCluster runCluster_found (by decide)
-    (by decide) runCluster_nodes {} rfl (freshNet (run runOps) 0) (syncedWith_fresh hs)
+    (by decide) {} rfl (freshNet (run runOps) 0) (syncedWith_fresh hs)
   exact ⟨v', h1, h3⟩
 
-/-! ## what the hypothesis on node addresses is for (finding F02a) -/
+
+/-- non-vacuity of the history theorems: any state accepts metadata for its own host under a higher
+epoch (`setMeta_accepts`), in particular twice in a row — the second time every task is reused -/
+example (p0 : ProxyState) (m : EMeta) (hh : checkHosts p0.announceHost m.loc = true) (he : p0.epoch < m.epoch) :
+    ∃ p1 p2, setMeta p0 m = (p1, .ok) ∧ setMeta p1 { m with epoch := m.epoch + 1 } = (p2, .ok) := by
+  obtain ⟨p1, h1⟩ := setMeta_accepts p0 m hh (Or.inl he)
+  have hp : p1.announceHost = p0.announceHost ∧ p1.epoch = m.epoch := by
+    obtain ⟨_, a2, _⟩ := C02_install_last_only p0 m p1 h1
+    refine ⟨?_, a2⟩
+    unfold setMeta at h1
+    split at h1
+    · cases h1
+    · split at h1
+      · cases h1
+      · simp only [Prod.mk.injEq, and_true] at h1
+        rw [← h1]
+  obtain ⟨p2, h2⟩ := setMeta_accepts p1 { m with epoch := m.epoch + 1 } (by rw [hp.1]; exact hh)
+    (Or.inl (by rw [hp.2]; exact Nat.lt_succ_self _))
+  exact ⟨p1, p2, h1, h2⟩
+
+example : checkHosts "h1" [] = true := rfl
+
+/-! ## why `add_proxy` must refuse equal node addresses (finding F02a, fixed in /repo bf43b2d) -/
 
 /-- `C02_stable` without the address hygiene hypothesis `AddrOk` (all other hypotheses kept) -/
 def StableWithoutAddrOk : Prop :=
@@ -349,13 +405,15 @@ def StableWithoutAddrOk : Prop :=
       ∃ n₀ sr₀, Cov v s n₀ sr₀ ∧
         ∀ start, IsProxy v start → ∃ k, k ≤ 1 ∧ EndsAt (follow net s FOLLOW_FUEL start) k n₀.proxy n₀.address
 
-/-- **F02a: the full statement is false of the code.**  `add_proxy` accepts a proxy whose two node
-addresses are equal; in the state reached by `add_proxy p1:1 n:1 n:1`, two more proxies,
-`add_cluster c 4`, and a failover of `p1:1`'s partner, `p1:1` hosts both masters under one address
-(`dupView`, a `PartitionView` — C01 holds).  `generate_proxy_meta_cmd_args` inserts both under the
-same `HashMap` key, the ranges of the first are overwritten, and the fully synced proxy answers
-`slot not covered` for slot 0, which the broker designates to its own node. -/
-theorem C02_full_false_dup_node_address : ¬ StableWithoutAddrOk := by
+/-- **why the registration must be refused.**  `dupView` is the view of a hand-built store in which
+proxy `p1:1` carries the same address `n:1` for both of its nodes and hosts both masters of its
+chunk — the state the broker reached before the fix (`add_proxy p1:1 n:1 n:1`, `add_cluster`, failover
+of the partner); it is a `PartitionView` (C01 holds).  `generate_proxy_meta_cmd_args` inserts both
+masters under one `HashMap` key, the ranges of the first are overwritten, and the fully synced proxy
+answers `slot not covered` for slot 0, which the view designates to its own node: without distinct
+node addresses per proxy the routing statement is false.  Since /repo bf43b2d such a store is
+unreachable (`nodesDistinct_of_run`); the theorem documents what the check in `add_proxy` protects. -/
+theorem C02_why_add_proxy_refuses_equal_nodes : ¬ StableWithoutAddrOk := by
   intro h
   obtain ⟨n₀, sr₀, _, hall⟩ := h {} dupView dupNet dupView_partition (by decide) (pendingNormal_of_B _ (by decide)) rfl
     dupSynced 0 (by decide) (by rw [pendingAt_iff_B]; decide)
@@ -365,6 +423,11 @@ theorem C02_full_false_dup_node_address : ¬ StableWithoutAddrOk := by
   obtain ⟨k, _, he⟩ := hall "p1:1" hp
   rw [dup_follow] at he
   rcases he with he | he <;> cases he
+
+/-- … and the refusal makes the hypothesis true of every run: every chunk of every stored cluster
+has two different node addresses per proxy -/
+theorem C02_nodes_distinct_reachable (ops : List Op) (cl : Cluster) (h : cl ∈ (run ops).clusters) :
+    NodesDistinct cl := nodesDistinct_of_run ops cl h
 
 /-! ## the phase pairs -/
 
